@@ -297,7 +297,177 @@ def returned_value_probe():
     return out
 
 
+_GLOBAL_CHILD = r"""
+import json, sys, types, warnings
+warnings.filterwarnings("ignore")
+import numpy as onp
+import autograd, autograd.numpy as np, autograd.numpy.random, autograd.numpy.linalg, autograd.numpy.fft
+import autograd.misc, autograd.misc.flatten, autograd.misc.optimizers, autograd.misc.tracers, autograd.misc.fixed_points, autograd.test_util, autograd.builtins, autograd.extend
+from autograd import grad, make_jvp, make_vjp, hessian, jacobian, value_and_grad, elementwise_grad, make_hvp
+from autograd.extend import primitive, defvjp, defjvp
+from autograd.test_util import check_grads
+from autograd.misc.flatten import flatten, flatten_func
+from autograd.misc.optimizers import adam, sgd
+from autograd.misc import const_graph
+
+# user primitives are registered BEFORE the first snapshot (registration legitimately extends the rule tables)
+@primitive
+def rev_only(x):
+    return x ** 3
+defvjp(rev_only, lambda ans, x: lambda g: g * 3.0 * x ** 2)
+@primitive
+def bad(x):
+    return x * 2.0
+defvjp(bad, lambda ans, x: lambda g: g * 2.5)
+defjvp(bad, lambda g, ans, x: g * 2.5)
+
+def fp(v, depth=0):
+    if isinstance(v, onp.ndarray):
+        return ("ndarray", v.shape, str(v.dtype), v.tobytes().hex()[:200] if v.dtype != object else len(v))
+    if isinstance(v, dict):
+        # entry-wise: a later comparison flags changed or removed entries; NEW keys are allowed (registering a primitive - which
+        # checkpoint() does on every call - legitimately extends the rule tables and cannot affect existing entries)
+        return {"__dict__": {repr(k)[:80]: (id(x) if callable(x) else (fp(x, depth + 1) or repr(x)[:80])) for k, x in v.items()}}
+    if isinstance(v, (list, set, frozenset, bytearray)):
+        return (type(v).__name__, len(v), [repr(x)[:60] if not callable(x) else id(x) for x in list(v)[:200]])
+    return None
+
+def snapshot():
+    snap = {}
+    for mn, m in sorted(sys.modules.items()):
+        if not (mn == "autograd" or mn.startswith("autograd.")) or m is None:
+            continue
+        for an, a in sorted(vars(m).items()):
+            if an.startswith("__"):
+                continue
+            f = fp(a)
+            if f is not None:
+                snap["%s.%s" % (mn, an)] = f
+            fns = [(an, a)]
+            if isinstance(a, type) and getattr(a, "__module__", "") == mn:
+                fns = [(an + "." + k, getattr(v, "__func__", v)) for k, v in vars(a).items()]
+                for k, v in vars(a).items():
+                    if not k.startswith("__"):
+                        f2 = fp(v)
+                        if f2 is not None:
+                            snap["%s.%s.%s" % (mn, an, k)] = f2
+            for fn_name, fn in fns:
+                # the function itself, what it wraps (__wrapped__) and the functions it closes over (decorators such as
+                # unary_to_nary keep the real function in a closure cell), three levels deep
+                todo, done = [(fn, 0)], set()
+                while todo:
+                    fn, dep = todo.pop()
+                    if not isinstance(fn, types.FunctionType) or id(fn) in done or dep > 3:
+                        continue
+                    done.add(id(fn))
+                    for i, d in enumerate(fn.__defaults__ or ()):
+                        f3 = fp(d)
+                        if f3 is not None:
+                            snap["%s.%s default #%d of %s" % (mn, fn_name, i, fn.__name__)] = f3
+                    for k, d in (fn.__kwdefaults__ or {}).items():
+                        f3 = fp(d)
+                        if f3 is not None:
+                            snap["%s.%s kw default %s of %s" % (mn, fn_name, k, fn.__name__)] = f3
+                    todo.append((getattr(fn, "__wrapped__", None), dep + 1))
+                    for cell in fn.__closure__ or ():
+                        try:
+                            cv = cell.cell_contents
+                        except ValueError:
+                            continue
+                        if isinstance(cv, types.FunctionType):
+                            todo.append((cv, dep + 1))
+                        else:
+                            f3 = fp(cv)
+                            if f3 is not None and getattr(fn, "__module__", "").startswith("autograd"):
+                                snap["%s.%s closure cell of %s (%s)" % (mn, fn_name, fn.__name__, type(cv).__name__)] = f3
+    import numpy
+    snap["numpy.geterr"] = repr(numpy.geterr())
+    snap["warnings.filters"] = len(warnings.filters)
+    snap["sys.getrecursionlimit"] = sys.getrecursionlimit()
+    return snap
+
+def attempt(th):
+    try:
+        th()
+    except Exception:
+        pass
+
+x = onp.array([0.5, -1.5, 2.0])
+params = {"w": onp.ones((2, 3)), "b": (onp.zeros(2), 1.5)}
+battery = [
+    lambda: grad(lambda z: np.sum(np.sin(z) * z[::-1]))(x), lambda: hessian(lambda z: np.sum(np.tanh(z) ** 2))(x), lambda: make_jvp(lambda z: np.sort(z) * z)(x)(x),
+    lambda: jacobian(lambda z: np.fft.irfft(np.fft.rfft(np.concatenate([z, z[:1]]))))(x), lambda: grad(lambda z: np.linalg.det(np.outer(z, z) + np.eye(3)))(x),
+    lambda: grad(lambda z: np.sum(np.einsum("i,j->ij", z, z)))(x), lambda: grad(lambda z: np.sum(z[[0, 0, 2]] ** 2))(x),
+    lambda: grad(lambda p: np.sum(np.dot(p["w"], x)) * p["b"][1])(params), lambda: flatten(params)[1](flatten(params)[0]), lambda: grad(flatten_func(lambda p: np.sum(p["w"]), params)[0])(flatten(params)[0]),
+    lambda: adam(lambda p, i: grad(lambda q: np.sum(q["w"] ** 2))(p), params, num_iters=3), lambda: sgd(lambda p, i: p * 2.0, x, num_iters=3),
+    lambda: const_graph(lambda z: np.sum(z * z))(x), lambda: grad(const_graph(lambda z: np.sum(np.sin(z))))(x),
+    lambda: check_grads(lambda z: np.sum(np.sin(z)))(x), lambda: check_grads(rev_only)(x), lambda: check_grads(rev_only, modes=["rev"])(x), lambda: check_grads(bad)(x), lambda: check_grads(bad, modes=["fwd"], order=1)(x),
+    lambda: grad(lambda z: np.linalg.svd(np.outer(z, z))[0][0, 0])(x), lambda: grad(lambda z: z * 2.0)(x), lambda: grad(lambda z: 1.0)("abc"), lambda: make_jvp(lambda z: np.linalg.det(np.outer(z, z)))(x)(x),
+    lambda: grad(lambda z: np.sum(np.cumprod(z)))(x), lambda: value_and_grad(lambda z: np.sum(z) * 1j)(x), lambda: elementwise_grad(lambda z: np.where(z > 0, z, 0.0) ** 2)(x),
+    lambda: make_hvp(lambda z: np.sum(z ** 3))(x)[0](x), lambda: grad(grad(lambda z: np.sum(z) ** 3))(x), lambda: autograd.checkpoint(lambda z: np.sum(np.sin(z)))(x), lambda: grad(autograd.checkpoint(lambda z: np.sum(np.sin(z))))(x),
+    lambda: autograd.misc.fixed_points.fixed_point(lambda a: lambda z: 0.5 * (z + a / z), 2.0, 1.0, lambda p, q: abs(p - q), 1e-10),
+]
+pristine = snapshot()
+for th in battery:  # warm-up: lazily created entries (per-node-type tables, ...) exist after the first use
+    attempt(th)
+before = snapshot()
+for th in battery:
+    attempt(th)
+for th in battery[::-1]:
+    attempt(th)
+after = snapshot()
+diff = []
+def changed(a, b):
+    if isinstance(a, dict) and "__dict__" in a and isinstance(b, dict) and "__dict__" in b:
+        return any(k not in b["__dict__"] or changed(va, b["__dict__"][k]) for k, va in a["__dict__"].items())
+    return a != b
+for k in sorted(set(before) | set(after)):
+    if k not in before or k not in after or changed(before[k], after[k]):
+        diff.append("%s: %s -> %s" % (k, str(before.get(k))[:120], str(after.get(k))[:120]))
+# one-shot changes made by the very FIRST use (which the warm-up would hide): default arguments, lists and arrays must
+# still be what they were in the pristine interpreter (dict / set tables may have gained lazily created entries)
+for k in sorted(pristine):
+    v0 = pristine[k]
+    lazily_filled = isinstance(v0, dict) or (isinstance(v0, tuple) and v0 and v0[0] in ("set", "frozenset"))
+    if (" default " in k or not lazily_filled) and k in after and changed(v0, after[k]) and not any(d.startswith(k + ":") for d in diff):
+        diff.append("%s: %s -> %s (changed by the first use)" % (k, str(v0)[:120], str(after[k])[:120]))
+print(json.dumps({"diff": diff[:10], "entries": len(before), "calls": 2 * len(battery)}))
+"""
+
+
+def global_state_probe():
+    """interpreter-wide state owned by the library - module-level lists / dicts / sets / arrays, class attributes, MUTABLE
+    DEFAULT ARGUMENTS of every function and method under autograd.*, NumPy's error state, the warnings filters - is the same
+    after a battery of 62 differentiations (successful and failing, incl. the bundled checker, optimizers, flatten,
+    const_graph, checkpoint, fixed_point) as before it.  Anything that persists there is a channel through which one call
+    can influence a later one."""
+    from .. import runner
+
+    env = dict(os.environ)
+    env["PYTHONPATH"] = runner.REPO
+    p = subprocess.run([sys.executable, "-c", _GLOBAL_CHILD], env=env, capture_output=True, text=True, timeout=900)
+    key = "HISTORY library-owned global state | module-level containers, class attributes and mutable default arguments under autograd.* before / after a battery of successful and failing differentiations"
+    r = {"key": key, "prim": "globals", "paths": 0, "queries": 0, "validated": 0, "verdicts": {}}
+    if p.returncode != 0:
+        r["status"], r["detail"] = "error", "child failed: " + p.stderr[-300:]
+        return [r]
+    d = json.loads(p.stdout.strip().splitlines()[-1])
+    r["paths"] = d["calls"]
+    if d["diff"]:
+        r["status"], r["detail"] = "violation", ("%d library-owned objects changed, e.g. " % len(d["diff"])) + " ; ".join(d["diff"][:3])[:600]
+        r["cex"] = {"mode": "history", "prim": "__globals__", "config": "globals"}
+    else:
+        r["status"], r["detail"], r["validated"] = "holds", "%d library-owned mutable objects fingerprinted" % d["entries"], d["entries"]
+    return [r]
+
+
 def replay(prim):
+    if prim == "__globals__":
+        rs = global_state_probe()
+        bad = [r for r in rs if r["status"] == "violation"]
+        for r in bad:
+            print(r["detail"])
+        return bool(bad)
     if prim == "__returned__":
         rs = returned_value_probe()
         bad = [r for r in rs if r["status"] == "violation"]
